@@ -2,6 +2,7 @@
 //! on the real chain service (ckb-chain + ckb-shared + ckb-store).
 mod c01;
 mod c02;
+mod c19;
 mod c20;
 mod hist;
 mod node;
@@ -43,6 +44,11 @@ fn main() {
             let r = c02::run(seed, thorough, &out, &scratch);
             Summary { viol: r.viol, evaluations: r.evaluations, distinct: r.distinct.len(), stats: r.stats, samples: r.samples,
                 rule: "histories on a real on-disk node: extensions with fee-paying transactions (proposed, then committed inside the window; in-block chains, conflicting spends, re-commits of the same transaction on a competing branch, uncles), competing branches that take over (longer, or shorter but heavier after the first epoch), truncations, restarts; after every change of the main chain COLUMN_CELL / TRANSACTION_INFO / INDEX / UNCLES are dumped by iteration from the store and from the published snapshot and compared with a replay of the main chain (property predicate) and with the Coq model's reorg. distinct = distinct histories, each >= 5 steps" }
+        }
+        "C19" => {
+            let r = c19::run(seed, thorough, &out, &scratch);
+            Summary { viol: r.viol, evaluations: r.evaluations, distinct: r.distinct.len(), stats: r.stats, samples: r.samples,
+                rule: "the histories of C02 (transactions, reorganisations incl. to shorter-but-heavier chains, truncations, restarts); after every main-chain change: every COLUMN_CHAIN_ROOT_MMR position below mmr_size(tip+1), chain_root_mmr(n).get_root() for every n <= tip and the root committed in every main-chain block's extension are compared byte-for-byte with an MMR recomputed structurally from the main chain's header digests (blake2b merges included); membership proofs for random leaf sets are verified against the right root, a neighbouring root and with a foreign digest; block filters are built (lazily, not after every change) and checked for the hash chain and for matching every output / spent-input script. The Coq model recomputes the numeric digest fields (start, end, total difficulty) of all nodes and roots. distinct = distinct histories" }
         }
         "C20" => {
             let r = c20::run(seed, thorough, &out, &scratch);
